@@ -20,6 +20,9 @@ type Scenario struct {
 	Opts    vs.Options
 	Body    func()
 	NoCache bool // oracles that depend on the linear order of independent operations
+	// DataOnly: one (default) schedule per combination of data choices — for properties quantified over
+	// programs / inputs / fault placements rather than schedules. Thread alternatives are not explored.
+	DataOnly bool
 	// DPOR: dynamic partial-order reduction + sleep sets (see dpor.go); same restriction on oracles.
 	DPOR bool
 	// With DPOR set and C >= 0 both searches run: first the preemption-bounded cached search up to C
@@ -282,7 +285,7 @@ func Explore(sc *Scenario, deadline time.Time) (result Stats) {
 	start := time.Now()
 	defer func() { result.WallS = time.Since(start).Seconds() }()
 	ex := &Explorer{sc: sc, Deadline: deadline, outcomes: map[uint64]struct{}{}, nontriv: map[uint64]struct{}{}}
-	ex.useCache = !sc.NoCache
+	ex.useCache = !sc.NoCache && !sc.DataOnly
 	ex.st = Stats{Scenario: sc.Name, BoundC: -2, BoundF: sc.F, Exhaustive: true}
 
 	// determinism self-check: the default schedule twice, identical observations and points.
@@ -463,6 +466,9 @@ func (ex *Explorer) search(c, f int) bool {
 		r := &run{points: ch.points}
 		for i := len(ch.points) - 1; i >= len(prefix); i-- {
 			p := ch.points[i]
+			if ex.sc.DataOnly && p.thread {
+				continue
+			}
 			for alt := p.n - 1; alt >= 1; alt-- {
 				uc, uf := p.usedC, p.usedF
 				if p.thread {
